@@ -268,6 +268,19 @@ func driveC05(c *h.Ctx) error {
 				c.Fail(sig, fmt.Sprintf("at version %s the message written piece by piece (Encoder.Struct{Any(header); TagAny(item)...}, %d bytes) differs from the encoding of the message stripped to the elements the pinned table allows (%d bytes)", cas.Ver, len(pw), len(b2)), caseJSON)
 			}
 		}
+		// the same message handed to the encoder BY VALUE (its fields are then not addressable): same bytes
+		func() {
+			defer func() { _ = recover() }()
+			bv := ttlv.MarshalTTLV(reflect.ValueOf(m).Elem().Interface())
+			c.Count("by-value-encoding")
+			if !bytes.Equal(bv, b2) {
+				sig := "C05/gate/by-value/element-not-allowed-at-version-is-emitted"
+				if len(bv) < len(b2) {
+					sig = "C05/gate/by-value/element-allowed-at-version-is-missing"
+				}
+				c.Fail(sig, fmt.Sprintf("at version %s the message passed by value to MarshalTTLV (%d bytes) differs from the encoding of the message stripped to the elements the pinned table allows (%d bytes)", cas.Ver, len(bv), len(b2)), caseJSON)
+			}
+		}()
 		// the same in the other encodings: the gate is the encoder's, not the binary writer's
 		for _, tf := range []struct {
 			name string
